@@ -187,7 +187,9 @@ def to_coq(world, obs):
 
 # ---------------------------------------------------------------- generator
 # some names are substrings of others (a layer selected by regex search instead of equality would drag the longer one along)
-LNAMES = ['La', 'Lb', 'Lc', 'Ma', 'Kz', 'Zq', 'Ab', 'Lx', 'Laz', 'Abx']
+# … and some are not identifiers: instance layers may be called anything, e.g. with characters that mean something in a regular
+# expression ('Lb+' read as a pattern matches 'Lbb'; 'L(a)' read as a pattern does not match itself)
+LNAMES = ['La', 'Lb', 'Lc', 'Ma', 'Kz', 'Zq', 'Ab', 'Lx', 'Laz', 'Abx', 'Lb+', 'Lbb', 'L(a)', 'Kz|Ma', 'L[ax]']
 
 
 def gen_layers(rng, n, p_hook=0.8, faults=True):
@@ -206,7 +208,10 @@ def gen_layers(rng, n, p_hook=0.8, faults=True):
             hooks['testSetUp'] = ['ok']
         if rng.random() < 0.6:
             hooks['testTearDown'] = ['ok']
-        layers.append({'name': names[i], 'bases': bases, 'kind': rng.choice(['class', 'class', 'instance', 'instance', 'falsy', 'alias']), 'hooks': hooks})
+        kind = rng.choice(['class', 'class', 'instance', 'instance', 'falsy', 'alias'])
+        if not names[i].isalnum():
+            kind = rng.choice(['instance', 'falsy'])
+        layers.append({'name': names[i], 'bases': bases, 'kind': kind, 'hooks': hooks})
     return layers
 
 
